@@ -12,6 +12,8 @@
   C20.rotate  seed dump path | bounds draws sync class dumpAfter
   C20.rotall  seed dump | bounds draws sync class dumpAfter
   C20.prunecmd seed dump random args tipfile comp | bounds draws class removed   (option priorities of `gotree prune`)
+  C20.prunerange seed dump k keep | bounds draws class sel    (`prune --random k [-r]`, every k incl. ≤ 0, ≥ n-2)
+  C20.prunefile seed dumps k | bounds draws class sels        (`prune --random k` on a file of several trees)
   C20.utreecmd seed n rooted N | script draws class shapes   (`gotree generate uniformtree -n N`)
   C20.shufcli seed dumps | bounds draws class namesAfter      (`gotree shuffletips` on a file of trees)
   C20.rotcli  seed dumps | bounds draws class dumpsAfter      (`gotree rotate rand` on a file of trees)
@@ -344,7 +346,7 @@ def handle (op : String) (f : List String) : Verdict :=
         else if n == 0 then [none] else (List.range n).map some
       let model := sampleCmd k repl opened items draws
       let tags := ["samplecmd", "cli", "fmt-" ++ fmt] ++ tagIf repl "replace" ++ tagIf (k < 0) "k<0" ++
-        tagIf (k < 0) "outside-quantifier" ++ tagIf (!opened) "nofile" ++ tagIf (bad ≥ 0) "malformed-tree" ++ tagIf (n == 0 && bad < 0) "empty-input" ++
+        tagIf (!opened) "nofile" ++ tagIf (bad ≥ 0) "malformed-tree" ++ tagIf (n == 0 && bad < 0) "empty-input" ++
         tagIf (model matches .ok _) "ok" ++ tagIf (model == .err) "err" ++ tagIf (model == .panic) "panic" ++
         tagIf (k ≥ 0 && k.toNat < n && k ≥ 1 && bad < 0 && opened) "nontrivial" ++
         tagIf (k.toNat ≥ n && n ≥ 1) "k>=n"
@@ -355,10 +357,8 @@ def handle (op : String) (f : List String) : Verdict :=
           else if k.toNat ≥ n then (if res == List.range n then none else some "k ≥ n: not all trees kept")
           else if validSubset k.toNat n res then none else some "not a duplicate-free choice of k trees"
         else if !res.isEmpty then some "trees were written although the command failed"
-        -- a crash on a legal sample size (k ≥ 0) violates the property whatever the model says; a negative
-        -- size is outside the property's quantifier (sizes are naturals): there the crash in `make` is only
-        -- compared with the model (tag `outside-quantifier`)
-        else if cls == "panic" && k ≥ 0 then some "the command crashed on a legal sample size"
+        -- the command must never crash: a negative size is an error since 4c7dd84
+        else if cls == "panic" then some "the command crashed"
         else if cls == "timeout" then some "the command did not terminate"
         else none
       let tie : Option String :=
@@ -392,6 +392,51 @@ def handle (op : String) (f : List String) : Verdict :=
       finish tags oracle (protoMsg bounds (pruneSelectionScript tipfile.isSome comp.isSome rnd tips.length) draws "-")
         (if sortStrings model == sortStrings removed then none else some ("model removes " ++ showStrList model))
     | _, _, _, _, _, _ => bad "C20.prunecmd fields"
+  | "prunerange", [_seed, dump, ksS, keepS, boundsS, drawsS, cls, selS] =>
+    -- `gotree prune --random k [-r]` over the whole range of k (≤ 0, …, n-2 … n+2).  `sel` = the tips that
+    -- disappeared (that stayed, with -r).  What RemoveTips does when fewer than 3 tips are left is the
+    -- business of C06: there any outcome class is accepted (tag `C06-quantifier`).
+    match T.undump dump, ksS.toInt?, natList boundsS, natList drawsS, parseStrList selS with
+    | some t, some k, some bounds, some draws, some sel =>
+      let keep := keepS == "1"
+      let tips := t.tipNames
+      let n := tips.length
+      let eff := if k > 0 then min k.toNat n else 0
+      let left := if keep then eff else n - eff
+      let degenerate := left < 3
+      let tags := ["prunerange", "cli"] ++ tagIf keep "keep" ++ tagIf (!keep) "remove" ++ tagIf (k ≤ 0) "k<=0" ++
+        tagIf (k > 0 && k.toNat < n) "k<n" ++ tagIf (k.toNat == n) "k=n" ++ tagIf (k.toNat > n) "k>n" ++
+        tagIf degenerate "C06-quantifier" ++ tagIf t.rooted "rooted" ++ tagIf (k > 0 && k.toNat < n && !degenerate) "nontrivial"
+      let oracle : Option String :=
+        if cls == "ok" then
+          if !(sel.all tips.contains) then some "a tip appeared / disappeared that the input does not have"
+          else if sel.eraseDups.length != sel.length || sel.length != eff then
+            some ("the selection has " ++ toString sel.length ++ " tips, expected " ++ toString eff)
+          else none
+        else if cls == "panic" || cls == "timeout" then some ("outcome class " ++ cls)
+        else if !degenerate then some ("a selection that leaves " ++ toString left ++ " tips was refused: " ++ cls)
+        else none
+      let model := (pruneSelection none none k [] t draws).filter tips.contains
+      let tie : Option String :=
+        if cls != "ok" then none
+        else if sortStrings model == sortStrings sel then none else some ("model selects " ++ showStrList model)
+      finish tags oracle (if cls == "ok" then protoMsg bounds (pruneSelectionScript false false k n) draws "-" else none) tie
+    | _, _, _, _, _ => bad "C20.prunerange fields"
+  | "prunefile", [_seed, dumps, ksS, boundsS, drawsS, cls, selsS] =>
+    -- `gotree prune --random k` on a file of several trees: the draws run on from tree to tree
+    match (splitTerm "|" dumps).mapM T.undump, ksS.toNat?, natList boundsS, natList drawsS, parseStrLists selsS with
+    | some ts, some k, some bounds, some draws, some sels =>
+      let tags := ["prunefile", "cli"] ++ tagIf (ts.length ≥ 2) "multitree" ++ tagIf (k ≥ 1) "nontrivial"
+      let oracle : Option String :=
+        if cls != "ok" then some ("outcome class " ++ cls)
+        else if sels.length != ts.length then some "not one output tree per input tree"
+        else if (sels.zip ts).all (fun p => p.1.all p.2.tipNames.contains && p.1.eraseDups.length == p.1.length &&
+            p.1.length == min k p.2.tipNames.length) then none
+        else some "some tree did not lose a duplicate-free choice of k of its tips"
+      let model := pruneRandomCmd k ts draws
+      finish tags oracle (protoMsg bounds (pruneRandomCmdScript k ts) draws "-")
+        (if model.map sortStrings == sels.map sortStrings then none else some ("model removes " ++ showStrLists model))
+    | _, _, _, _, _ => bad "C20.prunefile fields"
   | "utreecmd", [_seed, ns, rootedS, nbS, scriptS, drawsS, cls, shapesS] =>
     -- `gotree generate uniformtree -n N`: N trees from one seed
     match ns.toNat?, nbS.toNat?, natList scriptS, natList drawsS with
